@@ -9,7 +9,7 @@ From Pq Require Import Format.Nested Impl.CAssemble Impl.CAssembleFixed Proofs.N
   Proofs.CAssemblePagesProofs Proofs.NestedMapProofs Proofs.NestedInvProofs
   Proofs.CAssembleTightProofs Proofs.CAssembleFixedProofs Proofs.CAssembleV2Proofs
   Proofs.NestedStructProofs Proofs.CAssemblePyProofs
-  Proofs.PyDictProofs.
+  Proofs.PyDictProofs Proofs.NestedPageProofs Proofs.HybridProofs Codec.Hybrid Base.Bytes.
 Import ListNotations.
 Open Scope N_scope.
 
@@ -175,6 +175,26 @@ Theorem C15_dict_keys_first_occurrence :
     map fst (py_dict K V keqb pairs) = first_occurrences K keqb (map fst pairs).
 Proof. exact py_dict_keys. Qed.
 Print Assumptions C15_dict_keys_first_occurrence.
+
+(* nested page streams embed into the page payload framing with the proved hybrid codec: for any
+   runs that spell the repetition / definition levels of a page's entries, the spec decoder of the
+   v1 payload (le32 |R| R le32 |D| D values) and of the v2 payload (R D values, byte lengths from
+   the header) returns exactly those entries and leaves the value bytes untouched *)
+Theorem C15_page_payload_v1 : forall rw dw rruns druns vbytes (es : list entry),
+  Forall (run_wf rw) rruns -> Forall (run_wf dw) druns ->
+  allvals rruns = map fst es -> allvals druns = map snd es ->
+  N.of_nat (length (hyb_enc rw rruns)) < 2 ^ 32 -> N.of_nat (length (hyb_enc dw druns)) < 2 ^ 32 ->
+  dec_nested_v1 rw dw (N.of_nat (length es)) (nested_v1_payload rw dw rruns druns vbytes) = Some (es, vbytes).
+Proof. exact nested_v1_roundtrip. Qed.
+Print Assumptions C15_page_payload_v1.
+
+Theorem C15_page_payload_v2 : forall rw dw rruns druns vbytes (es : list entry),
+  Forall (run_wf rw) rruns -> Forall (run_wf dw) druns ->
+  allvals rruns = map fst es -> allvals druns = map snd es ->
+  dec_nested_v2 rw dw (N.of_nat (length es)) (N.of_nat (length (hyb_enc rw rruns))) (N.of_nat (length (hyb_enc dw druns)))
+                (nested_v2_payload rw dw rruns druns vbytes) = Some (es, vbytes).
+Proof. exact nested_v2_roundtrip. Qed.
+Print Assumptions C15_page_payload_v2.
 
 (* LIST / MAP groups below struct groups (flattened column "s1....sk.NAME"): every optional
    ancestor adds one definition level meaning "no collection in this row".  Spec side: folding
